@@ -108,7 +108,10 @@ let () =
             (String.concat ";" (List.map tok_out toks)) (result_out (sel_run ns (sel_prepass toks)))
         | ["S"; ns; toks] ->
           let ns = List.map pair (split ';' ns) in
-          print_endline (match select_ser ns (List.map pair (split ';' toks)) with None -> "NONE" | Some t -> "=" ^ str_out t)
+          let tl = List.map pair (split ';' toks) in
+          print_endline (match select_ser ns tl with
+              | None -> "NONE"
+              | Some t -> "=" ^ str_out t ^ "|" ^ String.concat ";" (List.map tok_out (select_ser_tokens ns tl)))
         | ["L"; ns; toks] ->
           let ns = List.map pair (split ';' ns) in
           print_endline (match sl_select ns (List.map pair (split ';' toks)) with
